@@ -146,7 +146,7 @@ def _pins(ctx, ex, instr, kinds):
     for n, k in zip(names, kinds):
         o = getattr(instr, n)
         if k == "reg":
-            pin_register(ctx, ex, 0, o, f"val_{n}")
+            pin_register(ctx, ex, 0, o, f"val_{n}", big_ok=not isinstance(instr, core.ArrayInstruction))
         elif k == "entry":
             iv = pin_register(ctx, ex, 0, o.index, f"val_{n}_index")
             # statement is silent on negative indices (python would index from the end): outside the claimed domain
